@@ -89,9 +89,12 @@ def getitem(eng, st, ref, o, idx):
             # A[m, B[m]]: row-wise selection under the same mask (same-mask fusion, DESIGN Appendix A)
             pw_b = info['pointwise']
             w = o.shape[1]
-            ii = z3.Int(fresh_name('i'))
-            eng.oblige('safe', 'index', st, z3.ForAll([ii], z3.Implies(z3.And(0 <= ii, ii < to_z3(o.shape[0]), to_z3(to_bool(m.at(ii)))),
-                                                                        z3.And(to_z3(neg(w)) <= to_z3(pw_b(ii)), to_z3(pw_b(ii)) < to_z3(w)))))
+            if isinstance(o.shape[0], int):
+                eng.oblige('safe', 'index', st, and_(*[implies(to_bool(m.at(r)), and_(le(neg(w), pw_b(r)), lt(pw_b(r), w))) for r in range(o.shape[0])]))
+            else:
+                ii = z3.Int(fresh_name('i'))
+                eng.oblige('safe', 'index', st, z3.ForAll([ii], z3.Implies(z3.And(0 <= ii, ii < to_z3(o.shape[0]), to_z3(to_bool(m.at(ii)))),
+                                                                            z3.And(to_z3(neg(w)) <= to_z3(pw_b(ii)), to_z3(pw_b(ii)) < to_z3(w)))))
             norm = lambda j, w=w: ite(lt(j, 0), add(j, w), j)
             inner = compress(eng, st, ArrV((o.shape[0],), lambda i, o=o, pw_b=pw_b: o.at(i, norm(pw_b(i))), o.dtype), m)
             eng.compress_info[inner.oid]['pointwise'] = lambda i, o=o, pw_b=pw_b: o.at(i, norm(pw_b(i)))
